@@ -14,420 +14,7 @@
  * I configs: the primary ULT, a second stream serving a user pool and one or
  * two external threads create, move, migrate, run and free units of the same
  * hash bucket while an observer translates a parked live unit back and forth. */
-#include "abti.h"
-#include "common.h"
-
-/* ------------------------------------------------------------------ arena ---*/
-#define NSLOT 48
-static char arena[1 << 18] __attribute__((aligned(64)));
-static ABT_unit slot_addr[NSLOT];
-enum { U_UNUSED, U_LIVE, U_FREED };
-typedef struct {
-    int state;
-    ABT_thread thread;
-    int pool;     /* user pool index */
-    int queued;   /* currently inside the pool's queue */
-} urec_t;
-static urec_t urec[NSLOT];
-static int nslot;                 /* slots handed out so far */
-static int recycle_units;         /* config: a freed unit address is handed out
-                                     again (LIFO), as a real allocator would */
-static int freed_stack[NSLOT], nfreed_stack;
-static int n_create, n_free;      /* callback counters */
-static int fail_next_create;      /* next create_unit returns ABT_UNIT_NULL */
-static int create_failed;
-static ABT_thread mig_watch = ABT_THREAD_NULL; /* see I_MIGRATE */
-static int mig_at = -1;  /* slices the migrating ULT had started when its unit in
-                            the target pool was created */
-static const int *mig_watch_started;
-static char logbuf[400];
-static int loglen;
-
-static void logev(char c, int s)
-{
-    if (loglen < (int)sizeof(logbuf) - 8)
-        loglen += snprintf(logbuf + loglen, sizeof(logbuf) - loglen, "%c%d ", c, s);
-}
-
-/* the runtime's hash (src/unit.c unit_get_hash_index) */
-static size_t uhash(ABT_unit unit)
-{
-    size_t val = (uintptr_t)unit;
-    size_t base_val = val >> 3;
-#if ABTI_UNIT_HASH_TABLE_SIZE_EXP <= 14
-    base_val += val >> (ABTI_UNIT_HASH_TABLE_SIZE_EXP + 3);
-#endif
-#if ABTI_UNIT_HASH_TABLE_SIZE_EXP <= 9
-    base_val += val >> (ABTI_UNIT_HASH_TABLE_SIZE_EXP * 2 + 3);
-#endif
-    return base_val & (ABTI_UNIT_HASH_TABLE_SIZE - 1);
-}
-
-static void arena_init(int collide)
-{
-    int n = 0;
-    size_t want = 0;
-    for (size_t off = 64; off + 8 <= sizeof(arena) && n < NSLOT; off += 8) {
-        ABT_unit u = (ABT_unit)(arena + off);
-        if (collide) {
-            if (n == 0)
-                want = uhash(u);
-            else if (uhash(u) != want)
-                continue;
-        }
-        slot_addr[n++] = u;
-    }
-    abtmc_check(n == NSLOT, "harness", "arena too small: %d slots", n);
-}
-
-static int slot_of(ABT_unit u, const char *where)
-{
-    for (int i = 0; i < nslot; i++)
-        if (slot_addr[i] == u)
-            return i;
-    abtmc_check_fail("alien_unit", "%s: runtime passed unit %p which no "
-                     "create_unit ever returned (log: %s)", where, (void *)u,
-                     logbuf);
-    return -1;
-}
-
-static int live_slot(ABT_unit u, const char *where)
-{
-    int s = slot_of(u, where);
-    abtmc_check(urec[s].state == U_LIVE, "poisoned_unit_used",
-                "%s: unit #%d was already freed by free_unit (log: %s)", where, s,
-                logbuf);
-    return s;
-}
-
-/* ------------------------------------------------------------- user pools ---*/
-enum { POL_FIFO, POL_LIFO, POL_CHOOSE };
-#define NUPOOL 3
-#define QCAP 12
-typedef struct {
-    ABT_pool handle;
-    int q[QCAP], n;
-    int policy;
-    int want; /* the driver asks the next pop to return this slot (-1: policy) */
-} upool_t;
-static upool_t UP[NUPOOL];
-static int legacy_pool = -1;  /* index of the pool built from ABT_pool_def */
-
-static int pool_index(ABT_pool pool)
-{
-    for (int i = 0; i < NUPOOL; i++)
-        if (UP[i].handle == pool)
-            return i;
-    abtmc_check_fail("harness", "callback for an unknown pool");
-    return -1;
-}
-
-static ABT_unit up_create(int p, ABT_thread thread)
-{
-    abtmc_check(thread != ABT_THREAD_NULL && thread != ABT_TASK_NULL,
-                "create_unit_null_thread", "create_unit called with a null handle");
-    if (fail_next_create) {
-        fail_next_create = 0;
-        create_failed = 1;
-        logev('x', p);
-        return ABT_UNIT_NULL;
-    }
-    for (int i = 0; i < nslot; i++)
-        abtmc_check(!(urec[i].state == U_LIVE && urec[i].thread == thread &&
-                      urec[i].pool == p),
-                    "double_create_unit",
-                    "create_unit called for a work unit that already has live "
-                    "unit #%d in the same pool %d (log: %s)", i, p, logbuf);
-    abtmc_check(nslot < NSLOT, "harness", "out of unit slots");
-    if (mig_watch != ABT_THREAD_NULL && thread == mig_watch && p == 1)
-        mig_at = mig_watch_started ? *mig_watch_started : 0;
-    int s;
-    if (recycle_units && nfreed_stack > 0)
-        s = freed_stack[--nfreed_stack]; /* same address, new association */
-    else
-        s = nslot++;
-    urec[s].state = U_LIVE;
-    urec[s].thread = thread;
-    urec[s].pool = p;
-    urec[s].queued = 0;
-    n_create++;
-    logev('c', s);
-    return slot_addr[s];
-}
-
-static void up_free_unit(int p, ABT_unit unit)
-{
-    abtmc_check(unit != ABT_UNIT_NULL, "free_unit_null", "free_unit(ABT_UNIT_NULL)");
-    int s = slot_of(unit, "free_unit");
-    abtmc_check(urec[s].state == U_LIVE, "double_free_unit",
-                "free_unit called twice for unit #%d (log: %s)", s, logbuf);
-    abtmc_check(p < 0 || urec[s].pool == p, "free_unit_wrong_pool",
-                "free_unit of unit #%d (pool %d) through pool %d", s, urec[s].pool,
-                p);
-    abtmc_check(!urec[s].queued, "free_unit_in_pool",
-                "free_unit of unit #%d while it is inside its pool (log: %s)", s,
-                logbuf);
-    urec[s].state = U_FREED;
-    if (recycle_units)
-        freed_stack[nfreed_stack++] = s;
-    n_free++;
-    logev('f', s);
-}
-
-static void up_push(int p, ABT_unit unit)
-{
-    int s = live_slot(unit, "push");
-    abtmc_check(urec[s].pool == p, "foreign_unit_pushed",
-                "unit #%d of pool %d pushed into pool %d (log: %s)", s,
-                urec[s].pool, p, logbuf);
-    abtmc_check(!urec[s].queued, "double_push",
-                "unit #%d pushed while already inside the pool (log: %s)", s,
-                logbuf);
-    abtmc_check(UP[p].n < QCAP, "harness", "user pool full");
-    UP[p].q[UP[p].n++] = s;
-    urec[s].queued = 1;
-    logev('p', s);
-}
-
-static int up_pop(int p)
-{
-    upool_t *P = &UP[p];
-    if (P->n == 0)
-        return -1;
-    int k = 0;
-    if (P->want >= 0) {
-        k = -1;
-        for (int i = 0; i < P->n; i++)
-            if (P->q[i] == P->want)
-                k = i;
-        P->want = -1;
-        if (k < 0)
-            return -1;
-    } else if (P->policy == POL_LIFO) {
-        k = P->n - 1;
-    } else if (P->policy == POL_CHOOSE && P->n > 1) {
-        k = abtmc_choose(P->n, ABTMC_B_E);
-    }
-    int s = P->q[k];
-    memmove(&P->q[k], &P->q[k + 1], sizeof(int) * (P->n - k - 1));
-    P->n--;
-    abtmc_check(urec[s].state == U_LIVE && urec[s].queued, "poisoned_unit_used",
-                "pool %d holds unit #%d that was freed (log: %s)", p, s, logbuf);
-    urec[s].queued = 0;
-    logev('o', s);
-    return s;
-}
-
-/* new-style callbacks */
-static ABT_unit n_create_unit(ABT_pool pool, ABT_thread t)
-{
-    return up_create(pool_index(pool), t);
-}
-static void n_free_unit(ABT_pool pool, ABT_unit u) { up_free_unit(pool_index(pool), u); }
-static ABT_bool n_is_empty(ABT_pool pool)
-{
-    return UP[pool_index(pool)].n == 0 ? ABT_TRUE : ABT_FALSE;
-}
-static ABT_thread n_pop(ABT_pool pool, ABT_pool_context ctx)
-{
-    (void)ctx;
-    int s = up_pop(pool_index(pool));
-    return s < 0 ? ABT_THREAD_NULL : urec[s].thread;
-}
-static void n_push(ABT_pool pool, ABT_unit u, ABT_pool_context ctx)
-{
-    (void)ctx;
-    up_push(pool_index(pool), u);
-}
-static size_t n_get_size(ABT_pool pool) { return (size_t)UP[pool_index(pool)].n; }
-static void n_free_pool(ABT_pool pool)
-{
-    int p = pool_index(pool);
-    abtmc_check(UP[p].n == 0, "pool_freed_nonempty", "pool %d freed with %d units",
-                p, UP[p].n);
-}
-/* legacy callbacks (no pool argument for the unit functions) */
-static ABT_unit l_create(ABT_thread t) { return up_create(legacy_pool, t); }
-static void l_free(ABT_unit *pu) { up_free_unit(legacy_pool, *pu); }
-static ABT_bool l_is_in_pool(ABT_unit u)
-{
-    int s = live_slot(u, "u_is_in_pool");
-    return urec[s].queued ? ABT_TRUE : ABT_FALSE;
-}
-static size_t l_get_size(ABT_pool pool) { return (size_t)UP[pool_index(pool)].n; }
-static void l_push(ABT_pool pool, ABT_unit u) { up_push(pool_index(pool), u); }
-static ABT_unit l_pop(ABT_pool pool)
-{
-    int s = up_pop(pool_index(pool));
-    return s < 0 ? ABT_UNIT_NULL : slot_addr[s];
-}
-static int l_free_pool(ABT_pool pool)
-{
-    n_free_pool(pool);
-    return ABT_SUCCESS;
-}
-
-static void make_new_pool(int p, int policy)
-{
-    ABT_pool_user_def def;
-    OK(ABT_pool_user_def_create(n_create_unit, n_free_unit, n_is_empty, n_pop,
-                                n_push, &def));
-    OK(ABT_pool_user_def_set_get_size(def, n_get_size));
-    OK(ABT_pool_user_def_set_free(def, n_free_pool));
-    UP[p].policy = policy;
-    UP[p].n = 0;
-    UP[p].want = -1;
-    /* the handle is needed by callbacks only after creation */
-    OK(ABT_pool_create(def, ABT_POOL_CONFIG_NULL, &UP[p].handle));
-    OK(ABT_pool_user_def_free(&def));
-}
-
-static void make_legacy_pool(int p, int policy)
-{
-    ABT_pool_def def;
-    memset(&def, 0, sizeof(def));
-    def.access = ABT_POOL_ACCESS_MPMC;
-    def.u_create_from_thread = l_create;
-    def.u_free = l_free;
-    def.u_is_in_pool = l_is_in_pool;
-    def.p_get_size = l_get_size;
-    def.p_push = l_push;
-    def.p_pop = l_pop;
-    def.p_free = l_free_pool;
-    UP[p].policy = policy;
-    UP[p].n = 0;
-    UP[p].want = -1;
-    legacy_pool = p;
-    OK(ABT_pool_create(&def, ABT_POOL_CONFIG_NULL, &UP[p].handle));
-}
-
-/* ------------------------------------------------- white box: the hash table */
-typedef struct u2t {
-    void *unit;
-    void *p_thread;
-    struct u2t *p_next;
-} u2t; /* layout of unit_to_thread in src/unit.c */
-
-static int mapped_entries(int *maxchain)
-{
-    ABTI_global *g = ABTI_global_get_global();
-    int live = 0, mc = 0;
-    for (size_t i = 0; i < ABTI_UNIT_HASH_TABLE_SIZE; i++) {
-        int chain = 0;
-        for (u2t *e = (u2t *)g->unit_to_thread_entires[i].list.val.val; e;
-             e = e->p_next) {
-            chain++;
-            if (e->unit != (void *)ABT_UNIT_NULL)
-                live++;
-        }
-        if (chain > mc)
-            mc = chain;
-    }
-    if (maxchain)
-        *maxchain = mc;
-    return live;
-}
-
-static int live_units(void)
-{
-    int n = 0;
-    for (int i = 0; i < nslot; i++)
-        n += urec[i].state == U_LIVE;
-    return n;
-}
-
-/* translation of a live work unit: handle -> unit -> handle */
-static void check_translation(ABT_thread t, int user_pool, const char *when)
-{
-    ABT_unit u = ABT_UNIT_NULL;
-    OK(ABT_thread_get_unit(t, &u));
-    abtmc_check(u != ABT_UNIT_NULL, "translation", "%s: get_unit gave NULL", when);
-    if (user_pool >= 0) {
-        int s = live_slot(u, "ABT_thread_get_unit");
-        abtmc_check(urec[s].thread == t && urec[s].pool == user_pool,
-                    "translation",
-                    "%s: ABT_thread_get_unit returned unit #%d which create_unit "
-                    "made for another work unit / pool (%d, expected pool %d)",
-                    when, s, urec[s].pool, user_pool);
-    } else {
-        for (int i = 0; i < nslot; i++)
-            abtmc_check(slot_addr[i] != u, "translation",
-                        "%s: work unit in a built-in pool still reports user "
-                        "unit #%d", when, i);
-    }
-    ABT_thread back = ABT_THREAD_NULL;
-    OK(ABT_unit_get_thread(u, &back));
-    abtmc_check(back == t, "translation",
-                "%s: ABT_unit_get_thread(ABT_thread_get_unit(t)) = %p, not t = %p",
-                when, (void *)back, (void *)t);
-}
-
-/* ------------------------------------------------------------- work units ---*/
-#define NW 6
-static ABT_thread W[NW];
-static int wkind[NW];            /* 0 named yielding ULT, 1 named tasklet, 2 unnamed ULT */
-static int wstart[NW], wdone[NW], winc[NW];
-static int wyields[NW];
-static int nw;
-static char ranon[NW + 1];
-static int go_flag;              /* hooked: set after the migration request */
-static int wpoll[NW];            /* unit first polls go_flag, yielding */
-static int wslices[NW];          /* yields done so far */
-
-static void wbody(int id, void *arg)
-{
-    abtmc_check(arg == (void *)(uintptr_t)(0xC14000 + id), "wrong_argument",
-                "work unit %d got argument %p", id, arg);
-    abtmc_check(wstart[id] == wdone[id] && wstart[id] < winc[id], "started_twice",
-                "work unit %d entered again (starts=%d completions=%d "
-                "incarnations=%d)", id, wstart[id], wdone[id], winc[id]);
-    wstart[id]++;
-    int rank = -1;
-    ABT_xstream_self_rank(&rank);
-    ranon[id] = (char)('0' + rank);
-    if (wpoll[id])
-        while (!abtmc_load(&go_flag)) {
-            wslices[id] = 1;
-            OK(ABT_thread_yield());
-        }
-    for (int y = 0; y < wyields[id]; y++) {
-        wslices[id] = 2 + y;
-        OK(ABT_thread_yield());
-    }
-    wdone[id]++;
-}
-#define WFN(n) static void wfn##n(void *a) { wbody(n, a); }
-WFN(0) WFN(1) WFN(2) WFN(3) WFN(4) WFN(5)
-static void (*const wfns[NW])(void *) = { wfn0, wfn1, wfn2, wfn3, wfn4, wfn5 };
-#define WARG(id) ((void *)(uintptr_t)(0xC14000 + (id)))
-
-/* kind: 0 named ULT, 1 named tasklet, 2 unnamed ULT, 3 unnamed tasklet */
-static int new_work_unit(ABT_pool pool, int kind, int yields)
-{
-    abtmc_check(nw < NW, "harness", "too many work units");
-    int id = nw++;
-    wkind[id] = kind;
-    wyields[id] = (kind == 0 || kind == 2) ? yields : 0;
-    winc[id] = 1;
-    W[id] = ABT_THREAD_NULL;
-    switch (kind) {
-        case 0:
-            OK(ABT_thread_create(pool, wfns[id], WARG(id), ABT_THREAD_ATTR_NULL,
-                                 &W[id]));
-            break;
-        case 1:
-            OK(ABT_task_create(pool, wfns[id], WARG(id), &W[id]));
-            break;
-        case 2:
-            OK(ABT_thread_create(pool, wfns[id], WARG(id), ABT_THREAD_ATTR_NULL,
-                                 NULL));
-            break;
-        default:
-            OK(ABT_task_create(pool, wfns[id], WARG(id), NULL));
-            break;
-    }
-    return id;
-}
+#include "c14_common.h"
 
 /* ----------------------------------------------------------------- configs --*/
 enum { M_SEQ, M_CONC };
